@@ -203,12 +203,13 @@ pub fn run_c01(args: &Args, seed: u64, tier: &str, report: &Report) -> String {
     let scale = args.u64("--scale", 1);
     let shards = 16usize;
     let cfg = StreamCfg {
-        playouts: if thorough { 60_000 } else { 3_000 } * scale,
+        playouts: if thorough { 150_000 } else { 3_000 } * scale,
         playout_len: 120,
-        synth: if thorough { 6_000_000 } else { 250_000 } * scale,
+        synth: if thorough { 8_000_000 } else { 250_000 } * scale,
         synth_ep: if thorough { 600_000 } else { 30_000 } * scale,
         wild: true,
         focus: false,
+        // dealt by (root, first move), see stream.rs, so that depth 4 (~150 M positions) shards evenly
         dfs_depth: if thorough { 4 } else { 3 },
     };
     run_shards(shards, 64, |shard| {
